@@ -15,7 +15,16 @@ def dec_folds(w):
 
 
 def impl_fold(text, k, fb):
-    r = call_impl(folding.fold, list(text), k, None if fb is None else list(fb))
+    mine = None if fb is None else list(fb)
+    r = call_impl(folding.fold, list(text), k, mine)
+    if r[0] == 'ok' and mine is not None:
+        # the boundaries belong to the caller: unchanged by the call, and a second call with the SAME list
+        # object (e.g. to fold a second, aligned text) gives the same folds
+        if mine != list(fb):
+            return ('ok', ('boundaries-modified', mine))
+        r2 = call_impl(folding.fold, list(text), k, mine)
+        if r2 != r:
+            return ('ok', ('second-call-differs', repr(r2)[:200]))
     if r[0] == 'ok':
         return ('ok', ([list(f) for f in r[1][0]], list(r[1][1])))
     return r
@@ -39,6 +48,10 @@ def oracle_fold(text, k, fb, valid):
             return None
         if out[0] != 'ok':
             return 'valid request raised ' + out[1]
+        if out[1][0] == 'boundaries-modified':
+            return 'fold() modified the fold_boundaries list of its caller: %r became %r' % (fb, out[1][1])
+        if out[1][0] == 'second-call-differs':
+            return 'a second fold() call with the same boundaries list gives another result: ' + out[1][1]
         folds, index = out[1]
         b = fb if fb is not None else [i * (n // k) for i in range(k)]
         if k == 1:
